@@ -148,6 +148,8 @@ JDptEnc(pr, r) ==
       lo == RangeLoQ(r.main, r.sub)
       hi == RangeHiQ(r.main, r.sub)
       d == DecQ(f, b)
+      lib == r.ok1 = 1 /\ r.v1.t = "f32"
+      dv == IF lib THEN Q(r.v1.hi, r.v1.lo) ELSE 0
       mono == /\ pr.k = "dpt" /\ pr.op = "enc" /\ pr.name = r.name /\ pr.idx + 1 = r.idx /\ pr.panic = 0
               /\ Len(pr.b) = FixedLen(r.main)
   IN (IF r.panic = 0 /\ r.ok1 = 1 THEN {} ELSE {"C07.SelfDecodable"})
@@ -156,6 +158,12 @@ JDptEnc(pr, r) ==
      \cup (IF sc /\ q < lo /\ Abs(d - lo) > StepQ(f, lo) + 2 THEN {"C07.Saturates"} ELSE {})
      \cup (IF sc /\ q > hi /\ Abs(d - hi) > StepQ(f, hi) + 2 THEN {"C07.Saturates"} ELSE {})
      \cup (IF sc /\ mono /\ DecQ(f, pr.b) > d THEN {"C07.Monotone"} ELSE {})
+     \* the same three clauses on what the LIBRARY'S OWN decoder makes of the encoding (the property speaks of decoding
+     \* the encoding; d above is the reference decoder's reading of the same octets)
+     \cup (IF sc /\ lib /\ q >= lo /\ q <= hi /\ Abs(dv - q) > StepQ(f, q) + 2 THEN {"C07.OneStep"} ELSE {})
+     \cup (IF sc /\ lib /\ q < lo /\ Abs(dv - lo) > StepQ(f, lo) + 2 THEN {"C07.Saturates"} ELSE {})
+     \cup (IF sc /\ lib /\ q > hi /\ Abs(dv - hi) > StepQ(f, hi) + 2 THEN {"C07.Saturates"} ELSE {})
+     \cup (IF sc /\ lib /\ mono /\ pr.ok1 = 1 /\ pr.v1.t = "f32" /\ Q(pr.v1.hi, pr.v1.lo) > dv + 2 THEN {"C07.Monotone"} ELSE {})
      \cup (IF r.panic = 0 /\ lenOk /\ HasExactEnc(f) /\ b # ExactEnc(f, r["in"]) THEN {IF f \in {"time", "date", "scene", "scenectl"} THEN "C07.Saturates" ELSE "C07.OneStep"} ELSE {})
      \cup (IF r.panic = 0 /\ r.ok1 = 1 /\ f \in {"xyY", "rgbw", "rgb"} /\ r.v1 # r["in"] THEN {"C07.SelfDecodable"} ELSE {})
 
